@@ -420,6 +420,7 @@ impl Report {
                         // flaky: failure did not reproduce on the shrunk input
                         self.note(format!("stage {}: a failure did not reproduce after shrinking (nondeterministic case?)", stage.name()));
                         self.inconclusive("non-reproducible failure");
+                        *PENDING.lock().unwrap() = None;
                         return;
                     };
                     // second pass: structural simplification with the same signature
